@@ -34,12 +34,27 @@ def run(eng, rep, tier):
               "the head of every production of the result is a renamed (fresh) variable (%d construction sites)" % len(prods),
               "a production of the result keeps an operand's variable object as head (capture)", summ,
               site=(bad[0].site.to_json() if bad else site_of(prog, fi, fi.node)))
-    apps = [ev for ev in summ.events if ev.kind == "write" and ev.wkind == "mutate:append" and ev.value is not None]
-    raw = [ev for ev in apps if any(not l[0].startswith("fresh:") for l in ev.value.alias)]
-    unguarded = [ev for ev in raw if not has_fact(ev.facts, " in new_variables_d", False)]
-    ob.decide("R5", "C10.1", fi, "unrenamed-only-if-not-a-variable", bool(raw) and not unguarded,
-              "a body symbol is copied as is only on the branch where it is not a key of the operand's renaming map",
-              "a body symbol can be copied un-renamed although it is a variable of the operand (capture)", summ,
+    # body symbols: a production of the result may keep an operand's own symbol object (a terminal), but then the
+    # choice must have consulted that operand's variable set (through the renaming map built from it): the body
+    # elements depend, by data or control, on <operand>.variables.  A body copied without looking at the variable set
+    # keeps the operand's variables un-renamed (capture).
+    from ..av import all_deps as _all_deps
+    n_raw, unguarded = 0, []
+    for ev in prods:
+        body = ev.args[1] if len(ev.args) > 1 else None
+        el = body.elem if body is not None else None
+        if el is None:
+            continue
+        roots = {l[0] for l in el.alias if not l[0].startswith("fresh:")}
+        for root in roots:
+            n_raw += 1
+            deps = _all_deps(el) | ev.ctrl
+            if not any(isinstance(d, tuple) and len(d) == 2 and d[0] == root and isinstance(d[1], tuple)
+                       and any(seg in ("variables", "_variables") for seg in d[1]) for d in deps):
+                unguarded.append(ev)
+    ob.decide("R5", "C10.1", fi, "unrenamed-only-if-not-a-variable", n_raw > 0 and not unguarded,
+              "where a body keeps an operand's own symbol, the choice depends on that operand's variable set (renaming map)",
+              "a body symbol can be copied un-renamed without consulting the operand's variables (capture)", summ,
               site=(unguarded[0].site.to_json() if unguarded else site_of(prog, fi, fi.node)))
     # the counter = the name spliced (through str()) into the renamed variable names
     ctr_names = set()
@@ -51,17 +66,25 @@ def run(eng, rep, tier):
                     ctr_names.add(sub.args[0].id)
     resets = [s for s in ast.walk(fi.node) if isinstance(s, ast.Assign) and any(isinstance(tg, ast.Name) and tg.id in ctr_names
                                                                                 for tg in s.targets)]
-    ob.decide("R5", "C10.1", fi, "counter-shared-across-operands", len(ctr_names) == 1 and len(resets) == 1,
-              "one renaming counter runs through self and every substituted grammar (never reset)",
-              "the renaming counter is reset between operands: the same object used twice gets the same names", None,
-              site=site_of(prog, fi, resets[-1] if resets else fi.node))
+    if not ctr_names:
+        rep.error("R5", "C10.1", fi.qname, "counter-shared-across-operands",
+                  "the renamed variable names are not built inside substitute any more (moved to a helper): the rule cannot "
+                  "follow the renaming counter", site=site_of(prog, fi, fi.node))
+    else:
+      ob.decide("R5", "C10.1", fi, "counter-shared-across-operands", len(ctr_names) == 1 and len(resets) == 1,
+                "one renaming counter runs through self and every substituted grammar (never reset)",
+                "the renaming counter is reset between operands: the same object used twice gets the same names", None,
+                site=site_of(prog, fi, resets[-1] if resets else fi.node))
     rd = deps_of(summ.ret)
     for t_, role in ((("self", ("_productions",)), "self-productions"), (P("substitution"), "substituted-grammars"),
                      (("self", ("_start_symbol",)), "self-start")):
         ob.decide("R1", "C10.1", fi, "result-depends-on-" + role, t_ in rd, "the result depends on " + role,
                   "the result of substitute does not depend on " + role, summ, site=site_of(prog, fi, fi.node))
     # start symbol of each substituted grammar replaces the terminal
-    fr = [ev for ev in summ.events if ev.kind == "write" and ev.wkind == "subscript" and "final_replacement" in ev.site.text]
+    # the replacement map: subscript stores whose key is a substituted terminal (a key of `substitution`, i.e. not an
+    # element of some grammar's variable set - those stores fill the renaming maps)
+    fr = [ev for ev, _ in events(summ, "write", own=True) if ev.wkind == "subscript" and ev.args and ev.args[0].alias
+          and not any(seg in ("variables", "_variables") for l in ev.args[0].alias for seg in l[1])]
     ob.decide("R1", "C10.1", fi, "terminal-replaced-by-operand-start",
               bool(fr) and all(any(d[0].startswith("p:substitution") and d[1] and d[1][-1] in ("_start_symbol", "start_symbol")
                                    for d in deps_of(ev.value) if isinstance(d, tuple) and isinstance(d[0], str)
@@ -83,7 +106,7 @@ def run(eng, rep, tier):
                   "%s does not substitute %s into its template" % (meth, "both operands" if binary else "self"), s2,
                   site=site_of(prog, f2, f2.node))
     fc = prog.method("CFG", "concatenate")
-    okc, why = _concat_order(fc)
+    okc, why = _concat_order(interp.run_entry(fc, CFG))
     ob.decide("R1", "C10.2", fc, "concatenation-order", okc, "the first body symbol of the template is bound to self",
               "concatenate binds the operands in the wrong order: " + why, None, site=site_of(prog, fc, fc.node))
 
@@ -122,18 +145,36 @@ def _elem_alias(av):
     return out
 
 
-def _concat_order(fc):
-    body_names = None
-    mapping = None
-    for sub in ast.walk(fc.node):
-        if isinstance(sub, ast.Call) and getattr(sub.func, "id", "") == "Production" and len(sub.args) > 1 and \
-                isinstance(sub.args[1], ast.List) and len(sub.args[1].elts) == 2 and \
-                all(isinstance(e, ast.Name) for e in sub.args[1].elts):
-            body_names = [e.id for e in sub.args[1].elts]
-        if isinstance(sub, ast.Dict) and len(sub.keys) == 2 and all(isinstance(k, ast.Name) for k in sub.keys):
-            mapping = {k.id: ast.unparse(v) for k, v in zip(sub.keys, sub.values)}
-    if body_names is None or mapping is None:
+def _concat_order(summ):
+    """The template production of concatenate has a two-symbol body [t0, t1]; the mapping handed to substitute binds
+    t0 to self and t1 to other.  Decided on abstract values: the body items of the Production construction, and the
+    key/value pairs of the mapping (dict display or subscript stores), whatever the locals are called."""
+    body = None
+    for ev, _ in events(summ, "new", own=True):
+        if ev.callee == PROD and len(ev.args) > 1 and ev.args[1].items is not None and len(ev.args[1].items) == 2:
+            body = ev.args[1].items
+    subs = [ev for ev, _ in calls(summ, "substitute", own=True)]
+    if body is None or not subs or not subs[0].args:
         return False, "template body or substitution map not found"
-    if mapping.get(body_names[0]) == "self" and mapping.get(body_names[1]) == "other":
+    mapping = subs[0].args[0]
+    pairs = []
+    for ev, _ in events(summ, None, own=True):
+        if ev.kind == "dictpair" and ev.recv is not None and ev.recv.alias & mapping.alias:
+            pairs.append((ev.args[0], ev.value))
+        elif ev.kind == "write" and ev.wkind == "subscript" and ev.recv is not None and ev.recv.alias & mapping.alias \
+                and ev.args and ev.value is not None:
+            pairs.append((ev.args[0], ev.value))
+    if not pairs:
+        return False, "template body or substitution map not found"
+
+    def bound(item):
+        out = set()
+        for k, v in pairs:
+            if k.alias & item.alias:
+                out |= set(v.alias)
+        return out
+    b0, b1 = bound(body[0]), bound(body[1])
+    if SELF in b0 and P("other") not in b0 and P("other") in b1 and SELF not in b1:
         return True, ""
-    return False, "%s -> %s, %s -> %s" % (body_names[0], mapping.get(body_names[0]), body_names[1], mapping.get(body_names[1]))
+    from ..av import loc_str
+    return False, "first body symbol -> %s, second -> %s" % (sorted(loc_str(l) for l in b0), sorted(loc_str(l) for l in b1))
